@@ -134,11 +134,12 @@ func vExportNoPanic(c *JApiCore) {
 // build, an ACCEPTED document serialises (every emitter step succeeds, nodes well typed)
 // and its OpenAPI export returns an error or a document without panicking.
 func HEmitCases() {
-	patterns := []string{"ab+", "[", "a(", "+", "*a", "a{2", "\\", "(?P<x>a)", "a|b", "", "[a-z]{2,}", "\\x01"}
-	nDocs := 13
+	patterns := []string{"ab+", "[", "a(", "+", "*a", "a{2", "\\", "(?P<x>a)", "a|b", "", "[a-z]{2,}", "\\x01",
+		"[^\\x00-\\x7F]+", "[^\\s\\S]x", "a|[^\\x00-\\x7F]"} // classes without a printable character: the example generator cannot serve them
+	nDocs := 16
 	di := vInt("doc", 0, nDocs-1)
 	pat, pr := "", ""
-	if di <= 4 {
+	if di <= 4 || di == 15 {
 		pat = patterns[vInt("pattern", 0, len(patterns)-1)]
 	}
 	pathRules := []string{
@@ -168,10 +169,13 @@ func HEmitCases() {
 		"TYPE @cat\n{ // a cat\n  \"n\": 1\n}\nGET /a\n  200 @cat // first\n  200\n    Body regex\n    /y+/\n  200 any\n  404 any\n", // same-code responses of three notations
 		"TAG @unused // nobody names it\nSERVER @s1\n  BaseUrl \"https://a\"\nSERVER @s2\n  BaseUrl \"https://b\"\nPATCH /e/{pid}/f/{fid}\n  Request any\n  200 any\n", // an unused TAG, two servers, PATCH with its own parameters
 		"GET /a\n  304\n    Headers\n    {\"ETag\": \"x\"}\n", // response headers without a body
+		"TYPE @k\n\"abc\"\nTYPE @d\n{\n  @k: 1\n}\nGET /a\n  200\n  { // {allOf: \"@d\"}\n    \"@k\": 2\n  }\n", // inherits a key shortcut, has a literal key of the same text
+		"TYPE @k\n\"abc\"\nTYPE @d\n{\n  \"@k\": 1\n}\nTYPE @c\n{ // {allOf: \"@d\"}\n  @k: 2\n}\nGET /a\n  200 @c\n", // the other way round, in a type
+		"TYPE @r regex\n/" + pat + "/\nGET /a\n  200\n  {\"n\": @r}\nGET /b\n  200\n  [@r]\nPOST /c\n  Request @r\n  200 any\n", // a regex type referred to by jsight schemas
 	}
 	vAssert(len(docs) == nDocs, "bad-fixture-count")
 	c, je := vBuildText("JSIGHT 0.3\n" + docs[di])
-	if di <= 4 {
+	if di <= 4 || di == 15 {
 		// the verdict on a regex body / type is that of the pattern
 		switch pat {
 		case "ab+", "(?P<x>a)", "a|b", "[a-z]{2,}":
@@ -183,7 +187,7 @@ func HEmitCases() {
 	if di == 9 {
 		vAssert(je != nil, "c04-headers-without-a-body-accepted")
 	}
-	if di == 10 || di == 11 {
+	if di == 10 || di == 11 || di == 13 || di == 14 {
 		vAssert(je == nil, "c04-valid-fixture-rejected")
 	}
 	if di == 12 {
